@@ -428,6 +428,12 @@ func (vc *VC) verifyRun(fn *ssa.Function, fc *FuncContract, key, caseName string
 		}
 		rep.Notes = append(rep.Notes, vc.notes...)
 	}()
+	if gone := vc.eng.vanishedLoops(fn, fc); len(gone) > 0 {
+		panic(execError{fmt.Sprintf("the contract has clauses for loop %v of %s, which no longer exists (removed or moved into another function)", gone, fn.Name())})
+	}
+	if vc.eng.loopAlign(fn); vc.eng.loopAl[fn].ambiguous && len(fc.Loops) > 0 {
+		vc.notes = append(vc.notes, "the number of loops of "+fn.Name()+" changed and the loops cannot be matched unambiguously with the ones the contract was written for; loop clauses are applied by ordinal")
+	}
 	isInit := fn.Name() == "init" && fn.Synthetic != ""
 	var st *State
 	var err error
